@@ -95,7 +95,8 @@ T = {
     "C20": ("exploration", "stateless/explicit-state exploration of thread schedules of the real code under a controlled scheduler",
             "Real threads are serialised by a baton scheduler with scheduling points from sys.monitoring; all interleavings at the shared "
             "accesses (explicit-state, unbounded preemptions) and all schedules with bounded preemptions at function granularity are explored; "
-            "each thread must get its solo result; every execution starts from the pristine library state (all module-level containers and scalars "
+            "each thread must get its solo result (thread programs: first/second order, forward/reverse, shared operators, and first- against second-order "
+            "differentiation through the sort / var / std / max / cumsum / indexing rules on same-shape arrays); every execution starts from the pristine library state (all module-level containers and scalars "
             "restored).", "Sequentially consistent interleaving at instrumented points; 2-3 threads.", "3/C20"),
 }
 
